@@ -156,6 +156,15 @@ func requestFieldOf(v ssa.Value, depth int, seen map[ssa.Value]bool) string {
 		return requestFieldOf(x.X, depth+1, seen)
 	case *ssa.ChangeType:
 		return requestFieldOf(x.X, depth+1, seen)
+	case *ssa.Call:
+		// a clamp spelled min(limit, 1000) / max(limit, 1) keeps the field's role
+		if builtinCall(x, "min") != nil || builtinCall(x, "max") != nil {
+			for _, a := range x.Call.Args {
+				if f := requestFieldOf(a, depth+1, seen); f != "" {
+					return f
+				}
+			}
+		}
 	case *ssa.Field:
 		st := x.X.Type().Underlying().(*types.Struct)
 		if strings.HasSuffix(namedName(x.X.Type()), "Request") {
@@ -286,6 +295,13 @@ func checkNormalisationParity(c *Ctx, rule string) {
 
 // sortKeys extracts the comparator of a sort.Slice closure: [(field, dir)…] primary first.
 func sortKeys(cl *ssa.Function) ([]string, bool) {
+	if keys, ok := comparatorKeys(cl); ok {
+		return keys, true
+	}
+	return sortKeysByShape(cl)
+}
+
+func sortKeysByShape(cl *ssa.Function) ([]string, bool) {
 	// tie: Equal(a.F, b.F) true edge -> return a.G > b.G ; else return a.F.After(b.F)
 	var keys []string
 	var tieField, tieDir, primField, primDir string
@@ -355,17 +371,26 @@ func checkOrderingParity(c *Ctx, rule string) {
 			if top := topLevel(fn); top != mf && p.SharedBy(top) >= 4 {
 				continue // shared maintenance helper (retention prune) — not part of this operation's result order
 			}
-			for _, ci := range allCalls(fn, func(ci ssa.CallInstruction) bool { return calleeIs(ci, "sort", "", "Slice") || calleeIs(ci, "sort", "", "SliceStable") }) {
-				for _, t := range funcValueTargets(ci.Common().Args[1], 0) {
-					if keys, ok := sortKeys(t); ok {
+			for _, ci := range allCalls(fn, func(ci ssa.CallInstruction) bool { _, ok := sortComparatorArg(ci); return ok }) {
+				cmpArg, _ := sortComparatorArg(ci)
+				for _, t := range funcValueTargets(cmpArg, 0) {
+					alts, ok := comparatorKeyAlternatives(p.View(t))
+					if !ok {
+						if keys, ok2 := sortKeys(t); ok2 {
+							alts, ok = [][]string{keys}, true
+						}
+					}
+					if !ok {
+						memOrders = append(memOrders, "?")
+						continue
+					}
+					for _, keys := range alts {
 						var cols []string
 						for _, k := range keys {
 							f := strings.Fields(k)
 							cols = append(cols, colOfField[f[0]]+" "+f[1])
 						}
 						memOrders = append(memOrders, strings.Join(cols, ", "))
-					} else {
-						memOrders = append(memOrders, "?")
 					}
 				}
 			}
